@@ -165,6 +165,7 @@ package composite
 //@   invariant [C05:applied-kept] (forall j :: 0 <= j && j < len(tas) && cds[j] != nil ==> (j in applied)) && len(resources) == len(tas) && len(cds) == len(tas)
 //@ site (client.Writer).Update(_, _, $o)
 //@   assert [C01:refs-update-is-the-xr] $o == xr
+//@   assert [C01:persisted-xr-carries-the-references-just-built] xr.GetResourceReferences() == refs
 //@   update refsPersisted = err == nil
 //@ site (resource.Applicator).Apply(_, _, $o, $opts...) as Apply-composed
 //@   where typeis($o, *composed.Unstructured)
@@ -455,7 +456,7 @@ package composite
 //      built here), and the final desired resources are read from the last step's output.
 //
 //@ func (*composite.FunctionComposer).Compose
-//@ props C01 C03 C04 C09
+//@ props C01 C03 C04 C09 C05
 //@ requires c != nil && xr != nil
 //@ ghost observedOK bool = false
 //@ ghost pipelineOK bool = true
@@ -467,6 +468,7 @@ package composite
 //@ let $o = result composite.AsState
 //@ let $prevRsp = result (composite.FunctionRunner).RunFunction
 //@ let $newcd = result composed.New
+//@ let $in = recv (*structpb.Struct).UnmarshalJSON
 //@ site (composite.ComposedResourceObserver).ObserveComposedResources(_, _, $x)
 //@   assert [C04:observes-this-xr] $x == xr
 //@   update observedOK = err == nil
@@ -479,6 +481,7 @@ package composite
 //@   assert [C04,C09:first-step-starts-from-an-empty-desired-state] steps == 0 ==> ($req.Desired != nil && $req.Desired.Composite == nil && len($req.Desired.Resources) == 0
 //@        && $req.Context != nil && len($req.Context.Fields) == 0)
 //@   assert [C03:no-step-after-a-failed-or-fatal-one] observedOK && pipelineOK && !sawFatal
+//@   assert [C04:step-receives-only-its-own-input] (fn.Input == nil ==> $req.Input == nil) && (fn.Input != nil ==> $req.Input == $in)
 //@   assert [C04:step-receives-only-its-own-credentials] forall k:Str :: (k in $req.Credentials) ==> exists j :: 0 <= j && j < len(fn.Credentials) && fn.Credentials[j].Name == k
 //@   update pipelineOK = pipelineOK && err == nil
 //@   update steps = steps + 1
@@ -516,6 +519,8 @@ package composite
 //@   invariant [C01:references-stay-persisted-while-upgrading] refsPersisted && gcDone && observedOK && pipelineOK && !sawFatal
 //@ loop range desired
 //@   invariant [C01:references-stay-persisted-while-applying] refsPersisted && gcDone && observedOK && pipelineOK && !sawFatal
+//@   invariant [C05:every-desired-resource-visited-is-reported] len(resources) == nvisited
+//@ ensures [C05:every-desired-resource-is-reported-applied-or-not] err == nil ==> len(result.Composed) == len(desired)
 //@ site (composite.ComposedResourceGarbageCollector).GarbageCollectComposedResources(_, _, $owner, $obs, $des)
 //@   assert [C03:garbage-collection-only-after-a-clean-pipeline] observedOK && pipelineOK && !sawFatal
 //@   assert [C03:garbage-collection-compares-observed-with-final-desired] $owner == xr && $obs == $observed && $des == desired
@@ -659,3 +664,32 @@ package composite
 //@ ensures [C05:ready-only-if-every-check-passes] (err == nil && result && len(rc) > 0) ==> forall j :: 0 <= j && j < len(rc) ==> rc[j].IsReady($paved, o)[0]
 //@ loop range rc
 //@   invariant [C05:every-check-so-far-passed] forall j :: 0 <= j && j < done ==> rc[j].IsReady(paved, o)[0]
+
+// C04 (extra resources): whatever selector a function's requirements carry is answered from
+// the cluster - one Get for a name, one List restricted by the selector's labels (an empty label
+// set matches every object of the kind) - never from a shortcut that skips the read.
+//@ func (*composite.ExistingExtraResourcesFetcher).Fetch
+//@ props C04
+//@ ghost read bool = false
+//@ optional site (client.Reader).Get(_, _, $key, $obj, $go...)
+//@   assert [C04:named-resource-read-by-the-required-name] typeis(rs.Match, *fnv1.ResourceSelector_MatchName) && $key.Name == as(rs.Match, *fnv1.ResourceSelector_MatchName).MatchName && $key.Namespace == ""
+//@   update read = true
+//@ optional site (client.Reader).List(_, _, $l, $lo...)
+//@   assert [C04:labelled-resources-listed-for-a-label-selector] typeis(rs.Match, *fnv1.ResourceSelector_MatchLabels)
+//@   update read = true
+//@ ensures [C04:a-selector-is-answered-from-the-cluster] err == nil ==> read
+
+// C05 (a single readiness check means what its type says): equality with the configured
+// string / integer / boolean / condition status - not containment, not a pattern.
+//@ func (composite.ReadinessCheck).IsReady
+//@ props C05
+//@ let $str = result (*fieldpath.Paved).GetString
+//@ let $int = result (*fieldpath.Paved).GetInteger
+//@ let $bool = result (*fieldpath.Paved).GetBool
+//@ ensures [C05:none-is-always-ready] (c.Type == "None" && err == nil) ==> result
+//@ ensures [C05:match-string-is-equality] (c.Type == "MatchString" && err == nil && result) ==> (c.MatchString != nil && $str == *c.MatchString)
+//@ ensures [C05:match-integer-is-equality] (c.Type == "MatchInteger" && err == nil && result) ==> (c.MatchInteger != nil && $int == *c.MatchInteger)
+//@ ensures [C05:match-true-is-true] (c.Type == "MatchTrue" && err == nil && result) ==> $bool
+//@ ensures [C05:match-false-is-false] (c.Type == "MatchFalse" && err == nil && result) ==> !$bool
+//@ ensures [C05:match-condition-is-status-equality] (c.Type == "MatchCondition" && err == nil && result) ==> (c.MatchCondition != nil && o.GetCondition(c.MatchCondition.Type).Status == c.MatchCondition.Status)
+//@ ensures [C05:unknown-type-is-not-ready] (err == nil && result) ==> (c.Type == "None" || c.Type == "NonEmpty" || c.Type == "MatchString" || c.Type == "MatchInteger" || c.Type == "MatchTrue" || c.Type == "MatchFalse" || c.Type == "MatchCondition")
